@@ -757,6 +757,8 @@ func (c *Ctx) codecOpaque(fn *ssa.Function, depth int) string {
 				why = "manual byte packing (" + strings.TrimPrefix(id, "encoding/binary.") + ") in " + name(f)
 			case id == "io.ReadFull" || id == "io.ReadAtLeast":
 				why = id + " into a scratch buffer in " + name(f)
+			case id == "bytes.Buffer.Write" || call.Call.IsInvoke() && call.Call.Method.Name() == "Write" && ir.NamedTypeID(call.Call.Value.Type()) == "io.Writer":
+				why = "bytes written with a plain Write in " + name(f)
 			default:
 				if callee := ir.Callee(call); callee != nil && c.P.InLib(callee) && callee != fn && c.codecWrapper(callee) == nil {
 					if c.isCodecFunc(callee, true) || c.isCodecFunc(callee, false) || c.readCone()[callee] && c.byteReaderCall(call) == nil && hasStreamParam(callee) {
